@@ -59,18 +59,33 @@ def near_transition(lat, tol=EPS):
     return any(abs(a - t) <= tol for t in TRANS.values())
 
 
+def _zone(x, d):
+    """(floor(x/d), MOD(x,d)/d) computed consistently (x % d and floor(x / d) can disagree by one zone in floats)."""
+    q = math.floor(x / d)
+    r = x - q * d
+    if r < 0:
+        q -= 1
+        r += d
+    elif r >= d:
+        q += 1
+        r -= d
+    return q, r / d
+
+
 def encode(lat, lon, i, surface=False):
     """DO-260B A.1.7.3.  Returns dict(yz, xz (17-bit), rlat, rlon (the encoded = bin-centre position),
     dlat_step, dlon_step (one quantisation step of the transmitted frame, degrees), nl)."""
     nb = 19 if surface else 17
     dlat = 360.0 / (4 * NZ - i)
-    yz = math.floor(2 ** nb * ((lat % dlat) / dlat) + 0.5)
-    rlat = dlat * (yz / 2 ** nb + math.floor(lat / dlat))
+    zlat, flat = _zone(lat, dlat)
+    yz = math.floor(2 ** nb * flat + 0.5)
+    rlat = dlat * (yz / 2 ** nb + zlat)
     nl = NL(rlat)
     ni = nl - i
     dlon = 360.0 / ni if ni > 0 else 360.0
-    xz = math.floor(2 ** nb * ((lon % dlon) / dlon) + 0.5)
-    rlon = dlon * (xz / 2 ** nb + math.floor(lon / dlon))
+    zlon, flon = _zone(lon, dlon)
+    xz = math.floor(2 ** nb * flon + 0.5)
+    rlon = dlon * (xz / 2 ** nb + zlon)
     return {
         "yz": yz % 2 ** 17, "xz": xz % 2 ** 17, "rlat": rlat, "rlon": rlon, "nl": nl,
         "dlat_step": dlat / 2 ** nb, "dlon_step": dlon / 2 ** nb,
